@@ -350,7 +350,7 @@ func RunProgram(p *ref.Program) (ts []tensor.Tensor, failedNode int, err error) 
 				panic("HARNESS: unknown leaf constructor " + p.Ctor[i])
 			}
 			if err != nil {
-				panic(fmt.Sprintf("HARNESS: leaf constructor %s%v: %v", p.Ctor[i], l.Shape, err))
+				panic(fmt.Sprintf("constructor %s%v returned an error on valid arguments: %v", p.Ctor[i], l.Shape, err))
 			}
 			ts = append(ts, t)
 			continue
